@@ -21,7 +21,11 @@ def budget(tier):
 
 
 def names(rng, n):
-    kind = rng.choice(["int", "int", "str", "str_digit", "mixed_intlike", "mixed_str", "leading_zero"])
+    kind = rng.choice(["int", "int", "str", "str_digit", "mixed_intlike", "mixed_str", "leading_zero", "hash_equal"])
+    if kind == "hash_equal":
+        # different ints with the same Python hash (-1 / -2, k / k + 2^61 - 1)
+        m61 = 2 ** 61 - 1
+        return kind, rng.sample([-1, -2, 0, m61, 7, 7 + m61, -3, -3 - m61, 5, 5 + 2 * m61], n)
     if kind == "int":
         return kind, rng.sample(range(0, 30), n)
     if kind == "str":
